@@ -271,16 +271,30 @@ def request_typestate(e: Engine, rep: Report, rule: str,
                 return st
             if n.kind == 'stmt' and isinstance(n.ast, ast.Assign) and \
                     not isinstance(label, tuple) and \
-                    isinstance(n.ast.value, ast.Name):
-                vp = path_of(n.ast.value, n.frame)
-                if vp in names:
-                    new = set(names)
-                    for t in n.ast.targets:
+                    isinstance(n.ast.value, (ast.Name, ast.Tuple, ast.List)):
+                # x = result / r, env = result, envelope (also what a `for`
+                # over an inlined generator receives from its `yield`)
+                vf = n.extra.get('yield_frame') or n.frame
+                v = n.ast.value
+                pairs = []
+                for t in n.ast.targets:
+                    if isinstance(v, ast.Name):
+                        pairs.append((t, v))
+                    elif isinstance(t, (ast.Tuple, ast.List)) and \
+                            len(t.elts) == len(v.elts):
+                        pairs += list(zip(t.elts, v.elts))
+                new = set(names)
+                hit = False
+                for t, vv in pairs:
+                    if isinstance(vv, ast.Name) and \
+                            path_of(vv, vf) in names:
                         q = path_of(t, n.frame)
                         if q:
+                            hit = True
                             new.add(q)
                             res_vars.add(q)
                             pair_vars.add(q)
+                if hit:
                     return live(new)
             if n.kind == 'test' and label in ('T', 'F'):
                 t = n.ast
